@@ -506,6 +506,11 @@ def slot_term(s):
         kind = "(KEmbedded %s)" % cstr(emb[1])
     elif emb and emb[0] == "many":
         kind = "(KListEmbedded %s)" % cstr(emb[1])
+    elif emb and emb[0] in ("extensions", "stix_objects", "observables"):
+        if emb[1] not in ("2.0", "2.1"):
+            raise TranslateError("slot %s: spec_version %r" % (s["name"], emb[1]))
+        kind = "(%s %s)" % ({"extensions": "KExtensions", "stix_objects": "KStixObjects", "observables": "KObservables"}[emb[0]],
+                            "true" if emb[1] == "2.0" else "false")
     return "{| s_name := %s; s_required := %s; s_default := %s; s_ref := %s; s_kind := %s |}" % (
         ustr(s["name"]), "true" if s["required"] else "false", "true" if s["default"] else "false", ref, kind)
 
@@ -588,15 +593,19 @@ def _emit_registry(d, name, out, names):
             rows.append("(%s, %s)" % (ustr(t), names[key]))
         return "[" + ";\n   ".join(rows) + "]"
 
-    exts = []
-    for t, tl in sorted((d.get("ext_toplevel", {}).get("2.1") or {}).items()):
-        exts.append("{| x_name := %s; x_toplevel := %s |}" % (
-            ustr(t), "None" if tl is None else "(Some [%s])" % "; ".join(slot_term(s) for s in tl)))
+    def extlist(ver):
+        exts = []
+        for t, tl in sorted((d.get("ext_toplevel", {}).get(ver) or {}).items()):
+            ck = (d.get("ext_class", {}).get(ver) or {}).get(t)
+            exts.append("{| x_name := %s; x_toplevel := %s; x_cls := %s |}" % (
+                ustr(t), "None" if tl is None else "(Some [%s])" % "; ".join(slot_term(s) for s in tl),
+                "(Some %s)" % names[ck] if ck in names else "None"))
+        return exts
     out.append("Definition %s : registry := {|\n  r_objects20 := %s;\n  r_observables20 := %s;\n  r_markings20 := %s;\n"
-               "  r_objects21 := %s;\n  r_observables21 := %s;\n  r_markings21 := %s;\n  r_extensions21 := [%s] |}.\n" % (
+               "  r_objects21 := %s;\n  r_observables21 := %s;\n  r_markings21 := %s;\n  r_extensions21 := [%s];\n  r_extensions20 := [%s] |}.\n" % (
                    name, table("2.0", "objects"), table("2.0", "observables"), table("2.0", "markings"),
                    table("2.1", "objects"), table("2.1", "observables"), table("2.1", "markings"),
-                   ";\n   ".join(exts)))
+                   ";\n   ".join(extlist("2.1")), ";\n   ".join(extlist("2.0"))))
 
 
 def translate(repo, py):
